@@ -177,6 +177,10 @@ static void dumpFunction(const Function &Fn) {
         bool fc = true;
         for (auto &c : sw->cases()) { if (!fc) *O << ","; fc = false; *O << "[" << opnd(c.getCaseValue(), &F) << "," << F.ids[c.getCaseSuccessor()] << "]"; }
         *O << "]";
+      } else if (auto *rmw = dyn_cast<AtomicRMWInst>(&I)) {
+        *O << ",\"rmw\":\"" << AtomicRMWInst::getOperationName(rmw->getOperation()) << "\",\"ptr\":" << opnd(rmw->getPointerOperand(), &F) << ",\"val\":" << opnd(rmw->getValOperand(), &F) << ",\"sz\":" << DL->getTypeStoreSize(rmw->getType());
+      } else if (auto *cx = dyn_cast<AtomicCmpXchgInst>(&I)) {
+        *O << ",\"ptr\":" << opnd(cx->getPointerOperand(), &F) << ",\"cmp\":" << opnd(cx->getCompareOperand(), &F) << ",\"new\":" << opnd(cx->getNewValOperand(), &F) << ",\"sz\":" << DL->getTypeStoreSize(cx->getCompareOperand()->getType()) << ",\"vty\":\"" << tystr(cx->getCompareOperand()->getType()) << "\"";
       } else {
         *O << ",\"ops\":[";
         for (unsigned i = 0; i < I.getNumOperands(); i++) { if (i) *O << ","; *O << opnd(I.getOperand(i), &F); }
